@@ -157,6 +157,15 @@ theorem dustCheck_ok (newA : List (String × Nat)) (change : Nat) (h : dustCheck
       | false => rfl
       | true => simp [hc, hd] at h
 
+theorem dustCheck_err (newA : List (String × Nat)) (change : Nat) (e : Model.Fee.Err) (h : dustCheck newA change = .error e) :
+    e = .dust ∨ e = .dustChange := by
+  unfold dustCheck at h
+  split at h
+  · injection h with h; exact Or.inl h.symm
+  · split at h
+    · injection h with h; exact Or.inr h.symm
+    · cases h
+
 theorem manualBuild_spec (totalIn nIn : Nat) (amounts : List (String × Nat)) (subfee : List String)
     (res : ManualRes) (h : manualBuild totalIn nIn amounts subfee = .ok res) :
     ManualOk totalIn nIn amounts subfee res := by
